@@ -56,6 +56,7 @@ type Prog struct {
 	e1    *e1Result
 	e3    *e3Result
 	e4    *e4Result
+	e5    *e5Result
 	atoms map[*ssa.Function]*guardInfo
 	doms  map[*ssa.Function]*postDom
 }
